@@ -6,6 +6,8 @@
                     an implementation `panic` is ALWAYS a property failure                → fail
     senc / xenc     spec: Encrypt then Decrypt gives the data back, another password fails → fail on difference
     lock            spec line computed by running the Lock/Unlock model                    → fail on difference
+    lockl, lockfix, svcl, svcfix   wallets loaded from sparse / legacy files: spec line computed by running
+                    `lockT` / `unlockT` (cipher looked up, default for wallets without a recorded type) → fail
 -/
 import Sky.Prim.DrvLib
 import Sky.C18.Model
@@ -79,6 +81,56 @@ def lockLine (typ : String) (n : Nat) (pw pw2 : Bytes) : String :=
     -- (in the model `unlock C w' pw` is an expression: `w'` cannot change; the spec is `purity=ok`)
     s!"again={exS (fun _ => "nil") (lock C w' pw [])} reload={un} purity=ok"
 
+/-! wallets loaded from sparse / legacy files: the cipher is LOOKED UP (`lockT` / `unlockT`), the table holds the
+three registered names, the default is the one `crypto.DefaultCryptoType` names -/
+
+def table (w : Wallet) : Ciphers where
+  get := fun n => if n == "sha256-xor" || n == "scrypt-chacha20poly1305" || n == "scrypt-chacha20poly1305-insecure"
+    then some (toy w) else none
+  default := "scrypt-chacha20poly1305"
+
+/-- model wallet of a loaded file: `nstr` named secret strings, `nent` entries, crypto type recorded or not -/
+def mkWn (typ ct : String) (nstr nent : Nat) : Wallet :=
+  let pm := if ct == "-" then [("type", typ)] else [("type", typ), ("cryptoType", ct)]
+  ⟨pm, (List.range nstr).map (fun i => (s!"str{i}", s!"v{i}")),
+   (List.range nent).map (fun i => ⟨s!"addr{i}", [2, i], [7, i + 1]⟩), false, false, []⟩
+
+def withMeta (w : Wallet) (ct : String) : Wallet :=
+  if ct == "-" then w else { w with pubMeta := w.pubMeta ++ [("cryptoType", ct)] }
+
+def leakOf (w w' : Wallet) : Nat :=
+  let secretVals : List String := w.strs.map (·.2) ++ w.entries.map (fun e => hexOf e.sec)
+  let lockedVals : List String := w'.strs.map (·.2) ++ w'.entries.map (fun e => hexOf e.sec)
+  (secretVals.filter fun s => lockedVals.contains s).length
+
+def showCT (s : String) : String := if s == "" then "-" else s
+
+def legacyLockLine (w : Wallet) (pw pw2 : Bytes) (light : Bool) : String :=
+  let T := table w
+  match lockT T w pw [] with
+  | .error e => "load=ok lock=" ++ lerr e
+  | .ok w' =>
+    let un := match unlockT T w' pw with
+      | .ok u => if u = withType (effType T w) w then "same" else "different"
+      | .error e => "err:" ++ lerr e
+    let wrong := if light then "skipped" else exS (fun _ => "nil") (unlockT T w' pw2)
+    let reload := if light then "loaded" else un
+    s!"load=ok lock=ok ct={showCT (recorded w')} nsecrets={(secretsOf w).length} clear={(secretsOf w').length} " ++
+    s!"leak={leakOf w w'} enc={w'.encrypted} unlock={un} wrong={wrong} emptypw={exS (fun _ => "nil") (unlockT T w' [])} " ++
+    s!"again={exS (fun _ => "nil") (lockT T w' pw [])} reload={reload} purity=ok"
+
+def legacySvcLine (w : Wallet) (pw pw2 : Bytes) : String :=
+  let T := table w
+  match lockT T w pw [] with
+  | .error e => "load=ok enc=" ++ lerr e
+  | .ok w' =>
+    let dec := match unlockT T w' pw with
+      | .ok u => if u = withType (effType T w) w then "same" else "different"
+      | .error e => "err:" ++ lerr e
+    s!"load=ok enc=ok ct={showCT (recorded w')} leak={2 * leakOf w w'} wrong={exS (fun _ => "nil") (unlockT T w' pw2)} dec={dec}"
+
+def isLight (edits : String) : Bool := (edits.splitOn ",").contains "light"
+
 def isPanic (impl : String) : Bool := impl.startsWith "panic"
 
 def step (op impl : String) : String × Verdict :=
@@ -117,6 +169,22 @@ def step (op impl : String) : String × Verdict :=
       | _, _, _ => ("bad-op", .unknown)
   | ["alias", _, _, _] => ("ok pure", .fail)
   | "lockext" :: _ => ("ok unlock=same reloaded=same again=same", .fail)
+  | [c, typ, ct, _, n, pw, pw2, edits] =>
+      if c == "lockl" || c == "svcl" then
+        match n.toNat?, hex? pw, hex? pw2 with
+        | some n, some pw, some pw2 =>
+            let w := withMeta (mkW typ n) ct
+            (if c == "lockl" then legacyLockLine w pw pw2 (isLight edits) else legacySvcLine w pw pw2, .fail)
+        | _, _, _ => ("bad-op", .unknown)
+      else ("bad-op", .unknown)
+  | ["lockfix", _, typ, ct, nstr, nent, pw, pw2, edits] =>
+      match nstr.toNat?, nent.toNat?, hex? pw, hex? pw2 with
+      | some a, some b, some pw, some pw2 => (legacyLockLine (mkWn typ ct a b) pw pw2 (isLight edits), .fail)
+      | _, _, _, _ => ("bad-op", .unknown)
+  | ["svcfix", _, typ, ct, pw, pw2, _] =>
+      match hex? pw, hex? pw2 with
+      | some pw, some pw2 => (legacySvcLine (mkWn typ ct 1 1) pw pw2, .fail)
+      | _, _ => ("bad-op", .unknown)
   | _ => ("bad-op", .unknown)
 
 end Sky.C18
